@@ -154,6 +154,46 @@ def h_orig_cmdt(ex, prop, L, holds=(0,), interval=None, windows='sym', rewind=No
     ex.witness()
 
 
+def h_orig_bam_busy(ex, prop, L=250, burst=12, tx='1/2000', interval=None):
+    """J1939-22 twin of tpref:h_orig_bam_busy: FD BAM pacing while an RTS/CTS burst is handled by the same job thread and
+    every send call of a pass takes `tx`"""
+    w, n, ca, rx = mk_world(ex, 255, bam_interval=interval)
+    w.tx_time = Fraction(tx)
+    ivl = Fraction(interval) if interval is not None else Fraction(1, 100)
+    nseg = tp22.nsegments(L)
+    payload = sym_payload(ex, 'b', 4) + [(7 * j) % 256 for j in range(L - 4)]
+    w.run(until=T('1/100'))
+    pgn_p2p = 0xD000
+    size = burst * 60
+    ex.claim('accepted', ca.send_pgn(0, 0xD0, P_ADDR, 6, [(3 * j) % 256 for j in range(size)]) is True)
+    t_bam = w.now
+    ex.claim('accepted', ca.send_pgn(0, 0xFE, 0x10, 6, list(payload)) is True)
+    st = {'dts': 0, 'acked': False, 'session': None}
+
+    def on_frame(f):
+        if f['src'] != 'S':
+            return
+        fld = ids.id_fields(f['id'])
+        k = kind_of(f)
+        if k == 'cm' and bool(fld['ps'] == P_ADDR) and st['session'] is None:
+            st['session'] = concretize(cm_fields(f['data'])['session'])
+        if k == 'cm' and bool(fld['ps'] == P_ADDR) and bool(cm_fields(f['data'])['ctrl'] == tp22.EOMS) and not st['acked']:
+            st['acked'] = True
+            w.after(T('1/200'), lambda: inject(w, n, tp22.PF_CM, tp22.cm_frame(tp22.EOMA, st['session'], size, burst, 0xFF, 0xFF, pgn_p2p)), 'peer')
+        if k == 'dt' and bool(fld['ps'] == P_ADDR):
+            st['dts'] += 1
+    w.frame_hooks.append(on_frame)
+    at = ex.fresh_real('cts_at', ivl - Fraction(1, 1000), ivl + Fraction(3, 1000))
+    w.at(t_bam + at, lambda: inject(w, n, tp22.PF_CM, tp22.cm_frame(tp22.CTS, st['session'] or 0, 0xFFFFFF, 1, burst, 0, pgn_p2p)), 'peer')
+    w.run(until=w.now + T(1) + (ivl + EPS[1]) * (nseg + 2))
+    bam = [f for f in w.log if f['src'] == 'S' and bool(ids.id_fields(f['id'])['ps'] == 255) and kind_of(f) == 'dt']
+    ex.claim('c09.fd.bam_busy.frame_count', len(bam) == nseg and st['dts'] == burst, {'bam_segments': len(bam), 'nseg': nseg, 'burst_segments': st['dts']})
+    for a, b in zip(bam, bam[1:]):
+        ex.claim('c09.fd.bam_busy.min_spacing', b['t'] - a['t'] >= ivl, {'interval': str(ivl), 'burst': burst, 'tx': tx})
+    ex.claim('job_thread_alive', n.job_alive())
+    ex.witness()
+
+
 # --------------------------------------------------------------------------- peer originates RTS/CTS
 def h_resp_cmdt(ex, prop, L, windows='sym', session=0):
     c03, c09 = prop == 'C03', prop == 'C09'
@@ -335,6 +375,11 @@ def jobs(prop, tier):
     if prop == 'C03':
         J('h_resp_bam', L=121, session=3)
     if prop == 'C09':
+        J('h_orig_bam_busy', L=250, burst=12)
+        if not q:
+            for burst in (4, 30):
+                for ivl in (None, '1/20'):
+                    J('h_orig_bam_busy', L=310, burst=burst, interval=ivl)
         for L in ([121, 181] if q else [61, 121, 181, 301]):
             for ivl in ([None, '1/20'] if q else [None, '1/100', '1/20', '1/10', '19/100']):
                 J('h_orig_bam', L=L, interval=ivl)
